@@ -83,7 +83,7 @@ def header_objects(pose):
 class C06(common.Prop):
     ID = "C06"
     RUNNER = "codec"
-    MODEL_FILES = ["model/PoseRead.v"]
+    MODEL_FILES = ["model/PoseRead.v", "model/C06_Heap.v"]
     RULE = ("histories of 1..8 steps over five small files (same file; same header other body; shorter / equal-length / longer other "
             "header): reads (bytes or stream, full or windowed), in-place mutations of earlier results through every public mutator, "
             "copies; then a probe read. Each result is snapshotted when created and re-dumped at the end; the probe is compared with "
